@@ -144,3 +144,15 @@ Definition mapB_set {V} (m : list (bytes * V)) (k : bytes) (v : V) : list (bytes
 (* m[i][k] = v on a map of maps: Go panics when the row m[i] is missing (assignment to entry in nil map) *)
 Definition map2_set {V} (m : list (Z * list (Z * V))) (i k : Z) (v : V) : option (list (Z * list (Z * V))) :=
   match lookupZ m i with None => None | Some row => Some (mapZ_replace m i (mapZ_set row k v)) end.
+
+(* ---- maps keyed by a string ---- *)
+Definition gomapB (V : Type) : Type := option (list (bytes * V)).    (* a map-typed field; None = the nil map *)
+Definition mapB_get {V} (m : gomapB V) (k : bytes) : option V :=
+  match m with Some l => lookupB l k | None => None end.
+Definition mapB_get_or {V} (m : gomapB V) (k : bytes) (zero : V) : V :=
+  match mapB_get m k with Some v => v | None => zero end.
+(* m[k] = v: panics on the nil map (None) *)
+Definition gomapB_set {V} (m : gomapB V) (k : bytes) (v : V) : option (gomapB V) :=
+  match m with Some l => Some (Some (mapB_set l k v)) | None => None end.
+(* l[i] on a slice: panics outside 0..len-1 *)
+Definition list_at {A} (l : list A) (i : Z) : option A := if i <? 0 then None else nth_error l (Z.to_nat i).
